@@ -86,6 +86,35 @@ pub fn check_basis(c: &BasisCase) -> CheckResult {
     Ok(CaseInfo::new(false).class(jname(c.long)))
 }
 
+/// the all-zero state (constructible only through Deserialize, where the type accepts it): the
+/// statement quantifies over every state; 2^k steps from it are observed to stay there (one real
+/// step is executed; if that moves, the step is C07's subject), so jump must leave it there too
+pub fn check_zero(c: &BasisCase) -> CheckResult {
+    let name = c.ty.name();
+    let Some(mut g) = linear::try_gen_in_state(c.ty, &Bits::ZERO) else {
+        return Ok(CaseInfo::new(false).class("zero-state-not-constructible"));
+    };
+    let stepped = linear::step(c.ty, &Bits::ZERO).map_err(inconcl)?;
+    if !stepped.is_zero() {
+        return Err(Fail::inconclusive("C06:model-zero", "one step moves the all-zero state: the step is not linear (C07's subject)"));
+    }
+    if c.long {
+        g.long_jump();
+    } else {
+        g.jump();
+    }
+    let mut expect = linear::try_gen_in_state(c.ty, &Bits::ZERO).ok_or_else(|| inconcl("zero state constructible once but not twice".into()))?;
+    if g.eq_dyn(&*expect) != Some(true) {
+        return Err(Fail::new(format!("C06:{}:{}:zero-state", jname(c.long), name), format!("{}() moves the all-zero state, which every number of single steps leaves in place", jname(c.long))));
+    }
+    for k in 0..c.bit {
+        if g.next_native() != expect.next_native() {
+            return Err(Fail::new(format!("C06:{}-outputs:{}", jname(c.long), name), format!("output #{} after {}() from the all-zero state differs from the stepped generator", k, jname(c.long))));
+        }
+    }
+    Ok(CaseInfo::new(false).class(jname(c.long)).class("zero-state"))
+}
+
 pub fn check_state(c: &StateCase) -> CheckResult {
     let s = Bits::from_bytes(&c.s.bytes);
     check_state_bits(c.ty, &s, c.long, c.outputs, "state")?;
@@ -183,6 +212,12 @@ pub fn def(ctx: &Ctx) -> PropDef {
             move || (0..n).flat_map(|bit| [BasisCase { ty, bit, long: false }, BasisCase { ty, bit, long: true }]).collect(),
             check_basis,
         ));
+        subs.push(ESub::boxed(
+            format!("zero-state/{}", ty.name()),
+            4,
+            move || [0usize, 8].into_iter().flat_map(|bit| [BasisCase { ty, bit, long: false }, BasisCase { ty, bit, long: true }]).collect(),
+            check_zero,
+        ));
         subs.push(PSub::boxed(
             format!("states/{}", ty.name()),
             t.pick(5000, 800_000),
@@ -210,7 +245,7 @@ pub fn def(ctx: &Ctx) -> PropDef {
     }
     PropDef {
         id: "C06",
-        rule: "for each of the 12 jump-capable types: T is extracted from the type's own next (n executions on the basis states), J = T^(2^(n/2)) and L = T^(2^(3n/4)) by repeated squaring; then (a) jump()/long_jump() on ALL n basis states and on generated states (uniform, sparse, dense, special words, single byte) must land on from_seed(J·s) resp. from_seed(L·s) (== and up to 64 following outputs), (b) jump/long_jump are linear on generated pairs (so the basis result extends to every state), (a') the same on preimages J^-1·t / L^-1·t of structured TARGET states t (zero words, small words, equal / complementary / negated words, constant words), so that special cases keyed on the result of a jump are reached, (c) metamorphic relations without a model: jump∘next^k = next^k∘jump, jump∘long_jump = long_jump∘jump, up to 8 repeated jumps are pairwise different and equal J^i·s. Non-trivial = generated state of weight >= 2 that is not the crate's jump-test seed; distinct by hash of the case.".into(),
+        rule: "for each of the 12 jump-capable types: T is extracted from the type's own next (n executions on the basis states), J = T^(2^(n/2)) and L = T^(2^(3n/4)) by repeated squaring; then (a) jump()/long_jump() on ALL n basis states and on generated states (uniform, sparse, dense, special words, single byte) must land on from_seed(J·s) resp. from_seed(L·s) (== and up to 64 following outputs), (b) jump/long_jump are linear on generated pairs (so the basis result extends to every state), (a') the same on preimages J^-1·t / L^-1·t of structured TARGET states t (zero words, small words, equal / complementary / negated words, constant words), so that special cases keyed on the result of a jump are reached, (c) metamorphic relations without a model: jump∘next^k = next^k∘jump, jump∘long_jump = long_jump∘jump, up to 8 repeated jumps are pairwise different and equal J^i·s, (d) where Deserialize admits the all-zero state, jump()/long_jump() leave it in place like any number of steps (counted as trivial). Non-trivial = generated state of weight >= 2 that is not the crate's jump-test seed; distinct by hash of the case.".into(),
         explanation: Some("2^64 .. 2^384 single steps cannot be executed. The generated inputs establish that next is the linear map T (C07's linearity and agreement checks, repeated here for jump itself) and that jump is linear; two linear maps that agree on a basis agree everywhere, so agreement of jump() with J = T^(2^(n/2)) on all n basis states plus linearity of jump on generated pairs gives jump = J on every state, up to linearity outside the sampled pairs. J and L are computed exactly by n/2 resp. 3n/4 matrix squarings from the T of this build.".into()),
         assumptions: vec!["next and jump are GF(2)-linear outside the sampled states (sampled: BLR relation on generated pairs)".into(), "state observation = serde image validated by from_seed(image) == g".into()],
         subs,
